@@ -3984,13 +3984,20 @@ iwrc iwkv_cursor_is_matched_key(struct iwkv_cursor *cur, const struct iwkv_val *
     if (ocompound) {
       *ocompound = rkey.compound;
     }
-    if (rkey.size != key->size) {
-      *ores = false;
-      goto finish;
-    }
     if (dbflg & IWDB_VNUM64_KEYS) {
-      *ores = !memcmp(rkey.data, key->data, key->size);
-    } else {
+      // A number key is given as 4 or 8 bytes, as for put/get; the unpacked stored key is always 8 bytes
+      uint64_t llv;
+      if (key->size == sizeof(uint32_t)) {
+        uint32_t lv;
+        memcpy(&lv, key->data, sizeof(lv));
+        llv = lv;
+      } else if (key->size == sizeof(llv)) {
+        memcpy(&llv, key->data, sizeof(llv));
+      } else {
+        goto finish;
+      }
+      *ores = !memcmp(rkey.data, &llv, sizeof(llv));
+    } else if (rkey.size == key->size) {
       *ores = !memcmp(okey + (okeysz - rkey.size), key->data, key->size);
     }
   } else {
